@@ -92,7 +92,7 @@ def run(ctx: Ctx) -> None:
                     detail = f"with {req} requests served and a maximum of {mx} the close announcement is {got}, expected {want}"
         # must be in the final-response branch (status >= 200) of the Response arm
         ga = guard_atoms(apps[0])
-        ok = ok and any(a == ("event.status_code >= 200", True) or a == ("event.status_code < 200", False) for a in ga)
+        ok = ok and (("event.status_code >= 200", True) in ga or ("event.status_code < 200", False) in ga)
     ctx.check("C06.R2", ws, "connection: close iff keep_alive_requests >= keep_alive_max_requests", ok, detail or "close announcement missing or mis-guarded", apps[0] if apps else ss)
     resp = [c for c in calls(ss) if call_name(c) == "h11.Response"]
     ok = len(resp) == 1 and apps and dotted(apps[0].func.value) is not None and dotted(apps[0].func.value) in provenance(kwarg(resp[0], "headers"), ss).leaves | {norm(kwarg(resp[0], "headers"))}
